@@ -86,7 +86,7 @@ def wmolJson (p : WMol) : List (String × Json) :=
 
 def productJson : Except RunErr ProductSet → Json
   | .error e => Json.mkObj [("err", runErrName e)]
-  | .ok p => Json.mkObj (wmolJson p.mol ++ [("comps", jnatss p.comps)])
+  | .ok p => Json.mkObj (wmolJson p.mol ++ [("comps", jnatss p.comps), ("closed", Json.bool (componentsClosed p.mol))])
 
 def handle (op : String) (j : Json) : Option (Except String Json) :=
   match op with
@@ -119,7 +119,7 @@ def handle (op : String) (j : Json) : Option (Except String Json) :=
       let f ← natsOf (← j.getObjVal? "f")
       let es ← (← arr j "edits").toList.mapM editOfJson
       match applyEdits f (WMol.ofMol m) es with
-      | .ok p => pure (Json.mkObj (wmolJson p ++ [("comps", jnatss (components p))]))
+      | .ok p => pure (Json.mkObj (wmolJson p ++ [("comps", jnatss (components p)), ("closed", Json.bool (componentsClosed p))]))
       | .error e => pure (Json.mkObj [("err", runErrName e)])
   | _ => none
 
